@@ -1,0 +1,38 @@
+//! C27 — net report aggregation (`Report::update`, `RelayLatencies`).
+use std::{net::SocketAddr, time::Duration};
+
+use iroh_base::RelayUrl;
+
+pub use crate::net_report::{Probe, RelayLatencies, Report};
+
+/// `Report::update` with a probe report built from plain data.
+/// `kind`: 0 = HTTPS (addr ignored), 1 = QAD IPv4, 2 = QAD IPv6.
+pub fn report_update(
+    r: &mut Report,
+    kind: u8,
+    relay: RelayUrl,
+    latency: Duration,
+    addr: SocketAddr,
+) {
+    r.verif_update(kind, relay, latency, addr)
+}
+
+pub fn probe_of(kind: u8) -> Probe {
+    match kind {
+        0 => Probe::Https,
+        1 => Probe::QadIpv4,
+        _ => Probe::QadIpv6,
+    }
+}
+
+pub fn update_relay(l: &mut RelayLatencies, url: RelayUrl, latency: Duration, kind: u8) {
+    l.verif_update_relay(url, latency, probe_of(kind))
+}
+
+pub fn merge(l: &mut RelayLatencies, other: &RelayLatencies) {
+    l.verif_merge(other)
+}
+
+pub fn get(l: &RelayLatencies, url: &RelayUrl) -> Option<Duration> {
+    l.verif_get(url)
+}
